@@ -68,6 +68,8 @@ class Check(CheckBase):
             unmet.append('too few unlock pairs')
         if c.get('refused_deletes', 0) < 50:
             unmet.append('too few cross-user delete attempts')
+        if c.get('sessions_continued_after_add_key', 0) < 10:
+            unmet.append('too few long-lived sessions continued after add-key')
         return unmet[:6]
 
     def run_case(self, case):
@@ -111,6 +113,22 @@ class Check(CheckBase):
                 ok, err = await world.try_unlock(None, passwords[ku])
                 if ok:
                     world.finding('C06', 'unlock of an encrypted repository succeeded without a key')
+            # -- 1b. a key created from inside a long-lived session: the session must go on acting as its user ---
+            if case['seed'] % 2 == 0:
+                from .. import refimpl, rep
+                u = r.choice(users)
+                session = await world.repo(u, fresh=True)
+                shared = r.random() < 0.6
+                with rep.capture():
+                    res = await session.add_key(password=b'pw-ux', settings=world._kdf_settings(), shared=shared)
+                key = session.serialize(res.new_key)
+                fam = world.users[u].family if shared else 'fx'
+                world.users['ux'] = hist.User('ux', key, b'pw-ux', fam, 'shared' if shared else 'independent', u)
+                world.users['ux'].ref = refimpl.Ref(world.config_bytes, key, b'pw-ux')
+                await world.snapshot(u, hist.gen_fileset(r, pool, nmax=3), note=f'session-of-{u}', repo=session)
+                world.count('sessions_continued_after_add_key')
+                users = sorted(world.users)
+                passwords['ux'] = b'pw-ux'
             # -- 2. every user takes snapshots ---------------------------------------------------------------
             filesets = {}
             for u in users:
